@@ -21,7 +21,9 @@ TECHNIQUE = ('predicate-tracking typestate over the statement CFG of zero_angle 
 DECIDED = [
     'R1 zero_angle returns only in states where the error was computed from a trajectory integrated with the '
     'returned elevation and the test `error > accuracy` (accuracy from this calculator\'s Config) is known false; every '
-    'other exit raises; the value returned is the elevation measured',
+    'other exit raises; the value returned is the elevation measured; what the search loop tests and advances '
+    '(error, iteration count) has a definition inside zero_angle that reaches the loop, so no budget is carried over '
+    'from an earlier call',
     'R2 nothing reachable from barrel_elevation_for_target stores into the shot; set_weapon_zero\'s only store is '
     'weapon.zero_elevation = <the call that may raise>, so a failed attempt leaves the stored zero untouched',
     'R3 the stored zero is (total elevation - look angle) and an un-canted shot without hold-over fires at '
